@@ -110,6 +110,37 @@ def call_method(ex, objtype, name, objn, arrow, args, n, decl):
     r = containers.method(ex, t, name, objn, arrow, args, n)
     if r is not NotImplemented:
         return r
+    if re.match(r'^(std::)?function<', t) and name == 'operator()':
+        fv = ex.calls._val(ex, objn)
+        if isinstance(fv, FuncRef):
+            decl = ex.tu.decls.get(fv.decl.get('id'))
+            if decl is None:
+                raise Unsupported('std::function target %s is not in this TU' % fv.decl.get('name'))
+            return ex.calls.call_decl(ex, decl, None, args, n)
+        from .values import LambdaVal
+        if isinstance(fv, LambdaVal):
+            return ex.call_lambda(fv, [ex.calls._val(ex, a) for a in args])
+        # a function-valued parameter of the function under verification: its contract (fn_params) stands for the call
+        from .calls import strip_casts
+        on = strip_casts(objn)
+        pname = on.get('referencedDecl', {}).get('name') if on.get('kind') == 'DeclRefExpr' else None
+        c = ex.cur_contract
+        if c is not None and pname in c.fn_params and ex.cur_fnode is ex.fnode:
+            spec = c.fn_params[pname]
+            avals = [ex.calls._val(ex, a) for a in args]
+            env = S.Env(ex, ex.store, {}, None, {})
+            ex2 = dict(ex.spec_lets)
+            ex2.update(ex.ghost_fn_syms)
+            ex2.update(dict(zip(spec['args'], avals)))
+            ex.oblige('pre', '%s.requires' % pname, S.spec_eval(spec.get('requires', 'True'), env, ex2), n)
+            sh = ex.ctype(n)
+            res = fresh(sh, ex.fresh_name('ret_' + pname))
+            ex.calls.type_inv(ex, res, sh)
+            ex2['result'] = env.wrap(res)
+            for lab, e in spec['ensures']:
+                ex.assume(S.spec_eval(e, env, ex2))
+            return res
+        raise Unsupported('call through a std::function whose target is unknown')
     if re.match(r'^(std::)?(__\w+::)?(vector|array|initializer_list)<', t):
         return vector_method(ex, t, name, objn, arrow, args, n)
     if re.match(r'^(std::)?(__)?shared_ptr(_access)?<', t) or re.match(r'^(std::)?unique_ptr<', t):
@@ -359,6 +390,8 @@ def ctor_model(ex, t, sh, ctype):
         return sptr_ctor
     if sh[0] == 'ptr' and ('iterator' in tt):
         return iter_ctor
+    if re.match(r'^(std::)?function<', tt):
+        return lambda ex, t, sh, ctype, args, n: ex.calls._val(ex, args[0])
     if re.search(r'(uniform_int_distribution|uniform_real_distribution|normal_distribution)<', tt):
         return dist_ctor
     return None
